@@ -94,6 +94,16 @@ def run_window(chk, spec, table=None):
 				return
 
 
+	# ... and, the cells being the same values, each output column is the kind of column aggregate produces (both are typed from their values)
+	if n and arows:
+		for j in range(nk, len(cols)):
+			ws, as_ = r.cols()[j].schema(), a.value.cols()[j].schema()
+			if ws is not None and as_ is not None and (ws.kind is not as_.kind or ws.nullable != as_.nullable):
+				chk.fail("window's output equals aggregate's output joined back to the rows on the partition key", f"window/column-kind-differs-from-aggregate/{names[j].rsplit('_', 1)[-1] if isinstance(names[j], str) else 'col'}",
+					f"{spec!r}: column {names[j]!r} holds {short(cols[j], 100)} typed {ws!r}; aggregate's column holds {short(acols[j], 100)} typed {as_!r}")
+				return
+
+
 def _renamed_last(agg, over, t0):
 	"""the aggregate result with the columns k, g, v (a key that was not grouped on is added as a constant column)"""
 	import warnings
